@@ -42,12 +42,14 @@ inductive Op
   | issue (target : Nat)
   | req (src id target : Nat) (path : List Nat)
   | resp (id : Nat) (ok : Bool) (tag : Nat)
+  | cancel (id : Nat)
   deriving Repr
 
 def Ag.apply (a : Ag) : Op → Ag × List Out
   | .issue t => a.issue t
   | .req s i t p => a.onReq s i t p
   | .resp i ok tag => a.onResp i ok tag
+  | .cancel i => a.cancel i
 
 /-- Ideal bookkeeping: one table of live requests with their origin. -/
 def idealApply (a : Ag) (g : AMap Origin) : Op → AMap Origin × List Out
@@ -65,6 +67,11 @@ def idealApply (a : Ag) (g : AMap Origin) : Op → AMap Origin × List Out
     | some none => (g.del i, [.deliver i ok tag])
     | some (some p) => (g.del i, [.send p (.resp i ok tag)])
     | none => (g.del i, [])
+  | .cancel i =>
+    -- the local caller is gone: nobody is to be served for this id any more
+    match g.get i with
+    | some none => (g.del i, [.cancelled i])
+    | _ => (g, [])
 
 /-- The real tables represent exactly the ideal table. -/
 structure Sync (a : Ag) (g : AMap Origin) : Prop where
@@ -76,6 +83,7 @@ def fresh (a : Ag) (g : AMap Origin) : Op → Prop
   | .issue _ => g.get (a.next + 1) = none
   | .req _ i _ _ => g.get i = none
   | .resp _ _ _ => True
+  | .cancel _ => True
 
 theorem sync_step {a : Ag} {g : AMap Origin} (hs : Sync a g) (o : Op) (hf : fresh a g o) :
     (a.apply o).2 = (idealApply a g o).2 ∧ Sync (a.apply o).1 (idealApply a g o).1 := by
@@ -159,6 +167,66 @@ theorem sync_step {a : Ag} {g : AMap Origin} (hs : Sync a g) (o : Op) (hf : fres
         have hp : (a.pending.get i).isSome = false := by simpa using h2
         simp only [hp, Bool.false_eq_true, if_false, h1]
         exact ⟨by trivial, hsync⟩
+  | cancel i =>
+    simp only [Ag.apply, Ag.cancel, idealApply]
+    have h1 := hs.fwd i
+    have h2 := hs.pend i
+    cases hg : g.get i with
+    | none =>
+      rw [hg] at h2
+      have hp : (a.pending.get i).isSome = false := by simpa using h2
+      simp only [hp, Bool.false_eq_true, if_false]
+      exact ⟨by trivial, hs⟩
+    | some o =>
+      cases o with
+      | some p =>
+        rw [hg] at h2
+        have hp : (a.pending.get i).isSome = false := by simpa using h2
+        simp only [hp, Bool.false_eq_true, if_false]
+        exact ⟨by trivial, hs⟩
+      | none =>
+        rw [hg] at h1 h2
+        have hp : (a.pending.get i).isSome = true := by simpa using h2
+        simp only [hp, if_true]
+        refine ⟨by trivial, ⟨fun j => ?_, fun j => ?_⟩⟩
+        · by_cases hj : j = i
+          · subst hj; simp [AMap.get_del_same, h1]
+          · simp only [AMap.get_del_ne _ _ _ hj]; exact hs.fwd j
+        · by_cases hj : j = i
+          · subst hj; simp [AMap.get_del_same]
+          · simp only [AMap.get_del_ne _ _ _ hj]; exact hs.pend j
+
+/-- **Request ids of one agent are never reused**: no operation lowers `nextControlID`, a cancelled
+    request keeps its id burnt, and every new local request gets an id above all earlier ones. -/
+theorem C39_local_ids_never_reused (a : Ag) (o : Op) :
+    a.next ≤ (a.apply o).1.next ∧
+    (∀ t, o = .issue t → a.peers.contains t = true →
+      (a.apply o).1.next = a.next + 1 ∧ (a.apply o).2 = [.send t (.req (a.next + 1) t [])]) := by
+  cases o with
+  | issue t =>
+    refine ⟨?_, fun t' h hp => ?_⟩
+    · simp only [Ag.apply, Ag.issue]; split <;> simp
+    · injection h with h; subst h
+      have hm : t ∈ a.peers := by simpa using hp
+      simp [Ag.apply, Ag.issue, hm]
+  | req s i t p =>
+    refine ⟨?_, fun _ h => by cases h⟩
+    simp only [Ag.apply, Ag.onReq]
+    split
+    · split
+      · simp
+      · split <;> simp
+    · simp
+  | resp i ok tag =>
+    refine ⟨?_, fun _ h => by cases h⟩
+    simp only [Ag.apply, Ag.onResp]
+    split
+    · simp
+    · split <;> simp
+  | cancel i =>
+    refine ⟨?_, fun _ h => by cases h⟩
+    simp only [Ag.apply, Ag.cancel]
+    split <;> simp
 
 /-- Run both agents over a history; `okRun` says every request is `fresh` when it arrives. -/
 def runBoth : Ag → AMap Origin → List Op → List (List Out) × List (List Out)
